@@ -198,17 +198,19 @@ def rpWalk (buf : Bytes) (numPoints : Nat) : Nat → Nat → Nat → Nat → Opt
         else rpWalk buf numPoints fuel (pos + 1) (coord + (xBytes f + yBytes f)) (i + 1)
     else some (pos, coord, i)
 
+/-- the tail of `removePadding`: walk the flags of `np` points starting at `start`, add the
+coordinate bytes, check `i != numPoints || pos > len(buf)` -/
+def simpleLenAux (buf : Bytes) (np start : Nat) : Option Nat :=
+  match rpWalk buf np np start 0 0 with
+  | none => none
+  | some (p, coord, i) => if i ≠ np ∨ p + coord > buf.length then none else some (p + coord)
+
 /-- length of the simple-glyph description at the start of `buf` (contour ends, instructions,
 flags, coordinates), as `removePadding` computes it; `none` = `errInvalidGlyphData` -/
 def simpleLen (nc : Nat) (buf : Bytes) : Option Nat :=
   if buf.length < 2 * nc + 2 then none
   else
-    let pos := 2 * nc
-    let numPoints := if nc > 0 then rd16 buf (pos - 2) + 1 else 0
-    let il := rd16 buf pos
-    match rpWalk buf numPoints numPoints (pos + 2 + il) 0 0 with
-    | none => none
-    | some (p, coord, i) => if i ≠ numPoints ∨ p + coord > buf.length then none else some (p + coord)
+    simpleLenAux buf (if nc > 0 then rd16 buf (2 * nc - 2) + 1 else 0) (2 * nc + 2 + rd16 buf (2 * nc))
 
 /-- `removePadding`: `glyph.Encoded = buf[:pos]` -/
 def removePadding (nc : Nat) (buf : Bytes) : Option Bytes :=
@@ -380,6 +382,12 @@ def mkPoints : List Int → List Int → List Nat → List Point
   | x :: xs, y :: ys, f :: fs => ⟨x, y, bit f flagOnCurve⟩ :: mkPoints xs ys fs
   | _, _, _ => []
 
+/-- `numPoints := 0; if numContours > 0 { numPoints = int(endPtsOfContours[numContours-1]) + 1 }` -/
+def numPointsOf (endPts : List Nat) : Nat :=
+  match endPts.getLast? with
+  | none => 0
+  | some e => e + 1
+
 /-- `(*SimpleGlyph).Decode`; `nc` is the `int16` value; `none` = `errInvalidGlyphData` -/
 def simpleDecode (nc : Int) (enc : Bytes) : Option GlyphInfo :=
   if nc < 0 then none else
@@ -387,7 +395,7 @@ def simpleDecode (nc : Int) (enc : Bytes) : Option GlyphInfo :=
   if enc.length < 2 * n + 2 then none else
   let endPts := (words16 (enc.take (2 * n)))
   let buf := enc.drop (2 * n)
-  let numPoints := match endPts.getLast? with | none => 0 | some e => e + 1
+  let numPoints := numPointsOf endPts
   let il := rd16 buf 0
   if buf.length < 2 + il then none else
   let instr := (buf.drop 2).take il
@@ -403,5 +411,39 @@ def simpleDecode (nc : Int) (enc : Bytes) : Option GlyphInfo :=
         match contourLoop (mkPoints xx yy ff) numPoints endPts 0 with
         | none => none
         | some cc => some ⟨cc, instr⟩
+
+/-! ## well-formed glyph lists (the domain of the round-trip theorem) -/
+
+/-- a component record whose argument bytes have the size its flags announce -/
+def wfComp (c : Component) : Bool :=
+  decide (c.flags < 65536) && decide (c.gid < 65536) && decide (c.data.length = compSkip c.flags)
+
+/-- at least one component; MORE_COMPONENTS exactly on the non-last ones -/
+def wfComps : List Component → Bool
+  | [] => false
+  | [c] => wfComp c && !bit c.flags FlagMoreComponents
+  | c :: cs => wfComp c && bit c.flags FlagMoreComponents && wfComps cs
+
+def wfData : GData → Bool
+  | .simple nc enc => decide (nc < 32768) && decide (simpleLen nc enc = some enc.length)
+  | .composite cs ins =>
+    wfComps cs && match ins with
+      | none => true
+      | some i => decide (i.length < 65536) && cs.any (fun c => bit c.flags FlagWeHaveInstructions)
+
+/-- nil, or 16-bit header fields and well-formed data: a simple glyph's bytes are exactly one
+simple-glyph description (no trailing bytes), a composite glyph's records match their flags and
+instructions are present only if some component announces them -/
+def wfGlyph : Option Glyph → Bool
+  | none => true
+  | some g => decide (g.llx < 65536) && decide (g.lly < 65536) && decide (g.urx < 65536) &&
+      decide (g.ury < 65536) && wfData g.data
+
+/-- size of the glyf table `Encode` writes -/
+def glyfSize (gs : Glyphs) : Nat := (gs.map encodeLen).sum
+
+/-- executable form of `WFGlyphs` -/
+def wfGlyphs (gs : Glyphs) : Bool :=
+  !gs.isEmpty && gs.all wfGlyph && decide (glyfSize gs < 4294967296)
 
 end SfntV.Glyf
